@@ -115,7 +115,7 @@ def ok(prog, app, mode, fb, gz=0, cache=0):
 def plans(rng, quick):
     fam = []
     # A: curated programs x every protocol variant x every application/io mode, every (sampled) short-write position
-    sweep = 10 if quick else 120
+    sweep = 10 if quick else 200
     progs = CURATED if not quick else CURATED
     for pi, (proto, ka) in enumerate(PROTOS):
         for mi, (app, mode, fb) in enumerate(APPMODES):
@@ -129,7 +129,7 @@ def plans(rng, quick):
                 cl = 1 if (gi + pi + mi) % 5 == 2 and "Z" not in prog else 0
                 fam.append(line(proto, ka, app, mode, fb, prog, "sweep:%d" % sweep, gz=gz, cache=cache, nh=(gi % 3), nc=(mi % 3), cl=cl))
     # B: random programs, random configuration, random schedules
-    nrand = 700 if quick else 12000
+    nrand = 700 if quick else 20000
     for i in range(nrand):
         proto, ka = rng.choice(PROTOS)
         app, mode, fb = rng.choice(APPMODES)
@@ -142,7 +142,7 @@ def plans(rng, quick):
         cl = 1 if rng.random() < 0.15 and "Z" not in prog else 0
         fam.append(line(proto, ka, app, mode, fb, prog, sched, gz=gz, cache=cache, nh=rng.randint(0, 3), nc=rng.randint(0, 2), cl=cl))
     # C: large bodies: FastCGI record splitting (> 65535), more than 16 gather entries, kernel-level short writes
-    nbig = 40 if quick else 500
+    nbig = 40 if quick else 700
     for i in range(nbig):
         proto, ka = PROTOS[i % len(PROTOS)] if i % 3 else rng.choice([("fcgi", 0), ("fcgi", 1)])
         app, mode, fb = APPMODES[(i // 2) % len(APPMODES)]
@@ -184,7 +184,7 @@ def plans(rng, quick):
                     continue
                 fam.append(line(variant[0], variant[1], app, mode, fb, prog, "chunk:%d:2" % (29 if quick else 7), nh=0, nc=0))
     # shards: interleave so that every shard has a similar mix
-    nshard = 6 if quick else 30
+    nshard = 6 if quick else 48
     shards = [[] for _ in range(nshard)]
     for i, f in enumerate(fam):
         shards[i % nshard].append(f)
